@@ -71,6 +71,13 @@ func runC09(c *core.Ctx) {
 		preludeCheck(c, sc, name, caseID, rawOfAmp(st, 0), rawOfAmp(st, minAmp(st.Bits)), rawOfAmp(st, maxAmp(st.Bits)),
 			func(raw uint64) bool { return math.Float64frombits(raw) == 0 })
 		chunkNo := 0
+		if ti%4 == 0 || !c.Quick() {
+			if idx, long, short := sc.longCheck([]uint64{rawOfAmp(st, 0), rawOfAmp(st, minAmp(st.Bits)), rawOfAmp(st, maxAmp(st.Bits)), rawOfAmp(st, 1), rawOfAmp(st, -1), rawOfAmp(st, maxAmp(st.Bits)/3)}); idx >= 0 {
+				c.Violate(name+"|buffer-size-dependence", caseID, fmt.Sprintf("position %d of a %d-sample buffer converted in one call gives carrier %#x, the same sample converted in a %d-sample chunk gives %#x", idx, longN, long, chunkN, short),
+					map[string]any{"fn": name, "samples": longN, "position": idx, "channels": sc.ch})
+			}
+			c.Obs("conversions_of_more_than_65536_samples_in_one_call", 1)
+		}
 		inv := inverseConv(cv)
 		var back *scanner
 		rtExact := b <= 32 && !f32
